@@ -187,7 +187,7 @@ func coseMutations() []coseMut {
 	exp("tag0-crit", time.Hour, true, func(s int64) cv { return cTag(0, cTstr(time.Unix(s, 0).UTC().Format(time.RFC3339))) })
 	exp("nan-crit", time.Hour, true, func(s int64) cv { return cTag(1, cFloat(nan())) })
 	exp("null-crit", time.Hour, true, func(s int64) cv { return cNull() })
-	exp("float-crit", time.Hour, true, func(s int64) cv { return cTag(1, cFloat(float64(s) + 0.25)) })
+	exp("float-crit", time.Hour, true, func(s int64) cv { return cTag(1, cFloat(float64(s)+0.25)) })
 	// crit
 	add("crit:empty", func(b *coseBuild, c *coseCtx) { csetP(b, int64(2), cArr()) })
 	add("crit:phantom-text", func(b *coseBuild, c *coseCtx) { caddCrit(b, cTstr("no.such")) })
@@ -236,7 +236,10 @@ func coseMutations() []coseMut {
 		csetP(b, int64(5), cBstr([]byte{1}))
 		csetP(b, int64(6), cBstr([]byte{2}))
 	})
-	add("ext:label-15-16", func(b *coseBuild, c *coseCtx) { csetP(b, int64(15), cMap()); csetP(b, int64(16), cTstr("application/x")) })
+	add("ext:label-15-16", func(b *coseBuild, c *coseCtx) {
+		csetP(b, int64(15), cMap())
+		csetP(b, int64(16), cTstr("application/x"))
+	})
 	add("ext:x5chain-in-protected", func(b *coseBuild, c *coseCtx) { csetP(b, int64(33), x5chainOf(ders(c.id.chain))) })
 	add("ext:x5chain-in-protected-other-identity", func(b *coseBuild, c *coseCtx) { csetP(b, int64(33), x5chainOf(ders(c.other.chain))) })
 	add("ext:x5chain-in-protected-only", func(b *coseBuild, c *coseCtx) {
@@ -259,7 +262,9 @@ func coseMutations() []coseMut {
 		caddCrit(b, cTstr(""))
 	})
 	add("ext:bstr-label", func(b *coseBuild, c *coseCtx) { b.Prot = append(b.Prot, kv(cBstr([]byte{1}), cInt(1))) })
-	add("ext:dup-label", func(b *coseBuild, c *coseCtx) { b.Prot = append(b.Prot, kv(cTstr("dup"), cInt(1)), kv(cTstr("dup"), cInt(2))) })
+	add("ext:dup-label", func(b *coseBuild, c *coseCtx) {
+		b.Prot = append(b.Prot, kv(cTstr("dup"), cInt(1)), kv(cTstr("dup"), cInt(2)))
+	})
 	add("ext:dup-alg", func(b *coseBuild, c *coseCtx) { b.Prot = append(b.Prot, kv(cInt(1), cInt(-37))) })
 	add("alg:tstr", func(b *coseBuild, c *coseCtx) { csetP(b, int64(1), cTstr("ES256")) })
 	for _, a := range []int64{-7, -35, -36, -37, -38, -39, -8, -257, 5, 0} {
@@ -376,7 +381,10 @@ func coseMutations() []coseMut {
 	add("unsigned:agent-wrongtype", func(b *coseBuild, c *coseCtx) { csetU(b, "io.cncf.notary.signingAgent", cInt(1)) })
 	add("unsigned:tst", func(b *coseBuild, c *coseCtx) { csetU(b, "io.cncf.notary.timestampSignature", cBstr([]byte{1, 2, 3})) })
 	add("unsigned:tst-wrongtype", func(b *coseBuild, c *coseCtx) { csetU(b, "io.cncf.notary.timestampSignature", cTstr("x")) })
-	add("unsigned:extra-labels", func(b *coseBuild, c *coseCtx) { csetU(b, "whatever", cArr(cInt(1))); csetU(b, int64(4), cBstr([]byte("kid"))) })
+	add("unsigned:extra-labels", func(b *coseBuild, c *coseCtx) {
+		csetU(b, "whatever", cArr(cInt(1)))
+		csetU(b, int64(4), cBstr([]byte("kid")))
+	})
 	add("unsigned:alg", func(b *coseBuild, c *coseCtx) { csetU(b, int64(1), cInt(-7)) })
 	add("unsigned:crit", func(b *coseBuild, c *coseCtx) { csetU(b, int64(2), cArr(cInt(1))) })
 	add("outer:untagged", func(b *coseBuild, c *coseCtx) { b.Untagged = true })
